@@ -10,6 +10,15 @@ fn arg(args: &[String], name: &str) -> Option<String> {
 
 fn main() {
     let args: Vec<String> = std::env::args().collect();
+    if args.len() >= 3 && args[1] == "findk" {
+        // one-off helper: search ephemeral scalars whose [k]G has `zeros` leading zero bytes in x / y (used to pre-compute driver constants)
+        let zeros: usize = args[2].parse().unwrap();
+        let mut rng = gen::Rng(args.get(3).and_then(|s| s.parse().ok()).unwrap_or(7));
+        for want_y in [false, true] {
+            if let Some(k) = suites::sm2::search_k(&mut rng, want_y, zeros, 40_000_000) { println!("{} {}", if want_y { "y" } else { "x" }, hex::encode(k)); }
+        }
+        return;
+    }
     if args.len() < 3 || args[1] != "drive" {
         eprintln!("usage: gmverif drive <suite> --tier quick|thorough --seed N --out FILE [--plan FILE]");
         std::process::exit(2);
